@@ -82,6 +82,12 @@ class VAlts:
     def __repr__(self):
         return f"VAlts({self.first!r}, {self.others!r})"
 
+    def __eq__(self, other):
+        return self.first == (other.first if isinstance(other, VAlts) else other)
+
+    def __hash__(self):
+        return hash(self.first)
+
 
 # ----------------------------------------------------------------------------- errors
 class E:
